@@ -431,7 +431,14 @@ def rule_r7(ctx):
     ctx.r.floor(rid, n, 7, "compiled patterns")
 
 
-RULES = [rule_r1, rule_r2, rule_r3, rule_r4, rule_r5, rule_r7]
+def rule_r8(ctx):
+    """Shared with C11.R2/R4: once the refusal closed the connection no further input is parsed or polled."""
+    from . import c11
+    c11.rule_r2(ctx, rid="C06.R8")
+    c11.rule_r4(ctx, rid="C06.R8")
+
+
+RULES = [rule_r1, rule_r2, rule_r3, rule_r4, rule_r5, rule_r7, rule_r8]
 
 from ..selftest import M, T, V  # noqa: E402
 
